@@ -29,6 +29,16 @@ type gctx struct {
 	leafs [][]QN   // paths of leaves / leaf-lists / lists (deviation targets)
 	mod   string   // module being written
 	gs    []string // groupings defined so far in this module
+	ags   []string // groupings of module a (usable from b and c as a:<name>)
+	ios   [][]QN   // paths of rpc / action input and output nodes (deviation: not-supported only)
+	noaug [][]QN   // paths of nodes that cannot be augmented (anyxml, rpc, action)
+}
+
+func (g *gctx) iff(kids []Stmt) []Stmt {
+	for i, n := 0, g.rng.Intn(8)-4; i < n; i++ { // now and then up to three if-feature statements
+		kids = append(kids, st("if-feature", fmt.Sprintf("f%d", g.rng.Intn(6))))
+	}
+	return kids
 }
 
 func (g *gctx) name(p string) string { g.n++; return fmt.Sprintf("%s%d", p, g.n) }
@@ -39,6 +49,12 @@ func leafStmt(name string, extra ...Stmt) Stmt {
 
 // body: random data statements; path is where they will sit (nil inside a grouping: no targets recorded).
 func (g *gctx) body(depth int, path []QN, inChoice bool) []Stmt {
+	inOp := false // inside an rpc, action or notification (no action may be written there)
+	for _, q := range path {
+		if q.N == "input" || q.N == "output" || (len(q.N) > 1 && q.N[0] == 'n' && q.N[1] >= '0' && q.N[1] <= '9') {
+			inOp = true
+		}
+	}
 	var out []Stmt
 	k := 1 + g.rng.Intn(3)
 	if depth == 0 {
@@ -65,8 +81,41 @@ func (g *gctx) body(depth int, path []QN, inChoice bool) []Stmt {
 		if g.rng.Intn(5) == 0 {
 			cfg = []Stmt{st("config", []string{"true", "false"}[g.rng.Intn(2)])}
 		}
-		switch r := g.rng.Intn(12); {
-		case r < 3 || depth >= 3:
+		switch r := g.rng.Intn(16); {
+		case r == 12 && depth >= 1 && depth < 3 && !inOp && !inChoice: // an action, in a container / list / grouping
+			n := g.name("act")
+			var kids []Stmt
+			var in, ou []QN
+			if p := sub(n); p != nil {
+				in = append(append([]QN{}, p...), QN{g.mod, "input"})
+				ou = append(append([]QN{}, p...), QN{g.mod, "output"})
+				rec(in, true)
+				rec(ou, true)
+				g.ios = append(g.ios, in, ou)
+				g.noaug = append(g.noaug, p)
+			}
+			if g.rng.Intn(3) > 0 {
+				kids = append(kids, st("input", "input", g.body(depth+2, in, false)...))
+			}
+			if g.rng.Intn(2) == 0 {
+				okids := g.body(depth+2, ou, false)
+				if g.rng.Intn(2) == 0 { // a choice with a shorthand member in an output (with or without an input next to it)
+					okids = append(okids, st("choice", g.name("och"), leafStmt(g.name("osh"))))
+				}
+				kids = append(kids, st("output", "output", okids...))
+			}
+			out = append(out, st("action", n, kids...))
+		case r == 13: // a container with nothing in it
+			n := g.name("e")
+			rec(sub(n), true)
+			out = append(out, st("container", n, g.iff(nil)...))
+		case r == 14 && depth <= 1:
+			n := g.name("ax")
+			if p := sub(n); p != nil && g.rng.Intn(2) == 0 {
+				g.noaug = append(g.noaug, p)
+			}
+			out = append(out, st("anyxml", n))
+		case r < 3 || depth >= 3 || r >= 12:
 			n := g.name("l")
 			var ex []Stmt
 			if g.rng.Intn(3) == 0 {
@@ -78,7 +127,7 @@ func (g *gctx) body(depth int, path []QN, inChoice bool) []Stmt {
 			n := g.name("c")
 			p := sub(n)
 			rec(p, true)
-			out = append(out, st("container", n, append(cfg, g.body(depth+1, p, false)...)...))
+			out = append(out, st("container", n, g.iff(append(cfg, g.body(depth+1, p, false)...))...))
 		case r == 5:
 			n := g.name("li")
 			p := sub(n)
@@ -94,6 +143,8 @@ func (g *gctx) body(depth int, path []QN, inChoice bool) []Stmt {
 			kids := []Stmt{st("type", "string")}
 			if g.rng.Intn(2) == 0 {
 				kids = append(kids, st("default", "x"), st("default", "y"))
+			} else if g.rng.Intn(2) == 0 {
+				kids = append(kids, st("min-elements", 1+g.rng.Intn(2)), st("max-elements", 5+g.rng.Intn(3)))
 			}
 			out = append(out, st("leaf-list", n, kids...))
 			rec(sub(n), false)
@@ -108,7 +159,15 @@ func (g *gctx) body(depth int, path []QN, inChoice bool) []Stmt {
 				rec(cp, true)
 			}
 			sh := g.name("sh")
-			out = append(out, st("choice", n, st("case", cn, g.body(depth+2, cp, false)...), leafStmt(sh)))
+			ckids := []Stmt{st("case", cn, g.body(depth+2, cp, false)...), leafStmt(sh)}
+			if g.rng.Intn(2) == 0 { // a shorthand container: its path goes through the implicit case of the same name
+				shc := g.name("shc")
+				ckids = append(ckids, st("container", shc))
+				if p != nil {
+					rec(append(append([]QN{}, p...), QN{g.mod, shc}, QN{g.mod, shc}), true)
+				}
+			}
+			out = append(out, st("choice", n, ckids...))
 		case r == 8 && depth == 0 && path != nil:
 			n := g.name("r")
 			p := sub(n)
@@ -116,12 +175,18 @@ func (g *gctx) body(depth int, path []QN, inChoice bool) []Stmt {
 			ou := append(append([]QN{}, p...), QN{g.mod, "output"})
 			rec(in, true)
 			rec(ou, true)
+			g.ios = append(g.ios, in, ou)
+			g.noaug = append(g.noaug, p)
 			var kids []Stmt
 			if g.rng.Intn(3) > 0 {
 				kids = append(kids, st("input", "input", g.body(depth+2, in, false)...))
 			}
 			if g.rng.Intn(2) == 0 {
-				kids = append(kids, st("output", "output", g.body(depth+2, ou, false)...))
+				okids := g.body(depth+2, ou, false)
+				if g.rng.Intn(2) == 0 {
+					okids = append(okids, st("choice", g.name("och"), leafStmt(g.name("osh"))))
+				}
+				kids = append(kids, st("output", "output", okids...))
 			}
 			out = append(out, st("rpc", n, kids...))
 		case r == 9 && depth == 0 && path != nil:
@@ -129,8 +194,17 @@ func (g *gctx) body(depth int, path []QN, inChoice bool) []Stmt {
 			p := sub(n)
 			rec(p, true)
 			out = append(out, st("notification", n, g.body(depth+2, p, false)...))
-		case r >= 10 && len(g.gs) > 0:
-			out = append(out, st("uses", QN{"", g.gs[g.rng.Intn(len(g.gs))]}))
+		case r >= 10 && r < 12 && len(g.gs)+len(g.ags) > 0:
+			var u Stmt
+			if k := g.rng.Intn(len(g.gs) + len(g.ags)); k < len(g.gs) {
+				u = st("uses", QN{"", g.gs[k]})
+			} else {
+				u = st("uses", QN{"a", g.ags[k-len(g.gs)]}) // a grouping of module a, used by another module
+			}
+			if g.rng.Intn(3) == 0 {
+				u.Kids = g.iff([]Stmt{st("if-feature", "fu")})
+			}
+			out = append(out, u)
 		default:
 			n := g.name("l")
 			out = append(out, leafStmt(n))
@@ -162,6 +236,7 @@ func RandomProg(rng *rand.Rand) *Prog {
 		abody = append(abody, st("grouping", gn, g.body(1, nil, false)...))
 		g.gs = append(g.gs, gn)
 	}
+	g.ags = append([]string{}, g.gs...)
 	p := &Prog{Mods: map[string]Module{}}
 	data := g.body(0, []QN{}, false)
 	if rng.Intn(3) == 0 { // part of the tree written in a submodule
@@ -178,6 +253,15 @@ func RandomProg(rng *rand.Rand) *Prog {
 		}
 		if keep == nil {
 			keep = []Stmt{}
+		}
+		// an augment written in the submodule with an absolute path without prefixes
+		if len(g.paths) > 0 && rng.Intn(2) == 0 {
+			t := g.paths[rng.Intn(len(g.paths))]
+			un := make([]QN, len(t))
+			for i, q := range t {
+				un[i] = QN{"", q.N}
+			}
+			keep = append(keep, st("augment", un, leafStmt(g.name("ua"))))
 		}
 		sub.Body = keep
 		p.Mods["as"] = sub
@@ -216,9 +300,15 @@ func RandomProg(rng *rand.Rand) *Prog {
 			}
 			if rng.Intn(12) == 0 {
 				t = append(append([]QN{}, t...), QN{"a", "nosuch"})
+			} else if rng.Intn(15) == 0 && len(g.noaug) > 0 {
+				t = g.noaug[rng.Intn(len(g.noaug))] // an anyxml node, an rpc or an action itself: not augmentable
 			}
 			pay := g.body(2, t, false)
-			augs = append(augs, st("augment", t, pay...))
+			a := st("augment", t, pay...)
+			if rng.Intn(4) == 0 {
+				a.Kids = append(a.Kids, st("if-feature", "faug"))
+			}
+			augs = append(augs, a)
 		}
 		rng.Shuffle(len(augs), func(i, j int) { augs[i], augs[j] = augs[j], augs[i] }) // written in any order
 		body = append(body, augs...)
@@ -226,7 +316,18 @@ func RandomProg(rng *rand.Rand) *Prog {
 			for i, n := 0, 1+rng.Intn(2); i < n; i++ {
 				t := g.leafs[rng.Intn(len(g.leafs))]
 				var dv Stmt
-				switch rng.Intn(5) {
+				switch rng.Intn(9) {
+				case 5:
+					dv = st("deviate", "replace", st("max-elements", 2+rng.Intn(3)))
+				case 6:
+					dv = st("deviate", "add", st("min-elements", 1))
+				case 7:
+					dv = st("deviate", "delete", st("max-elements", 5))
+				case 8:
+					if len(g.ios) > 0 {
+						t = g.ios[rng.Intn(len(g.ios))] // the input or output of an rpc or action
+					}
+					dv = st("deviate", "not-supported")
 				case 0:
 					dv = st("deviate", "not-supported")
 				case 1:
@@ -298,10 +399,55 @@ func gen(body []byte) *core.Verdict {
 			}
 		}
 	}
+	// path lookups on the clean trees: the absolute prefixed path of observed nodes (and the same path with a
+	// step that names nothing appended or put in the middle) from the root of every module that can name the prefix
+	lookups := []map[string]any{}
+	if len(errs) == 0 {
+		imports := map[string][]string{"a": {"a"}, "b": {"a", "b"}, "c": {"a", "b", "c"}}
+		for _, tm := range []string{"a", "b", "c"} {
+			m := ms.Modules[tm]
+			if m == nil {
+				continue
+			}
+			obs := Flatten(yang.ToEntry(m))
+			keys := sortedObs(obs)
+			rng.Shuffle(len(keys), func(i, j int) { keys[i], keys[j] = keys[j], keys[i] })
+			if len(keys) > 12 {
+				keys = keys[:12]
+			}
+			for _, k := range keys {
+				o := obs[k]
+				for _, variant := range []string{"exact", "absent-last", "absent-middle"} {
+					steps := append([]string{}, o.P...)
+					switch variant {
+					case "absent-last":
+						steps = append(steps, "nosuchnode")
+					case "absent-middle":
+						if len(steps) < 2 {
+							continue
+						}
+						steps = append(append(append([]string{}, steps[:len(steps)-1]...), "nosuchnode"), steps[len(steps)-1])
+					}
+					abs := "/" + tm + ":" + strings.Join(steps, "/"+tm+":")
+					for from, can := range imports {
+						ok := false
+						for _, x := range can {
+							ok = ok || x == tm
+						}
+						if !ok || ms.Modules[from] == nil {
+							continue
+						}
+						got := yang.ToEntry(ms.Modules[from]).Find(abs)
+						lookups = append(lookups, map[string]any{"mod": tm, "p": steps, "from": from, "found": got != nil, "same": got == o.Entry})
+					}
+				}
+			}
+		}
+	}
 	v.Events = append(v.Events,
 		json.RawMessage(fmt.Sprintf(`{"ev":"reset","tid":%d}`, q.Tid)),
 		js(map[string]any{"ev": "program", "prog": p}),
-		js(map[string]any{"ev": "observed", "errs": len(errs) > 0, "flat": flat}))
+		js(map[string]any{"ev": "observed", "errs": len(errs) > 0, "flat": flat, "lookups": lookups}))
 	if len(errs) == 0 {
 		roots, entries, _ := Heap(ms, names)
 		v.Events = append(v.Events, js(map[string]any{"ev": "heap", "roots": roots, "entries": entries, "errs": 0}))
